@@ -1058,7 +1058,9 @@ def nested_adj_family(seed, n):
             pt["members"].append({"kind": "pos", "id": "z", "vt": "int", "arity": "opt", "strict": "any", "help": "HELP-z", "metavar": "MVZ", "hidden": False})
         shape = i % 4
         if shape < 2:
-            inner = adjf("dr", ["many", "one"][shape], cmdhead("dh", "draw"), pt, sw("f", "--fill"))
+            # (every other one also has a switch of the command declared IN FRONT of the group: claimed before the group
+            # is looked for, it may stand inside a block and split it)
+            inner = adjf("dr", ["many", "one"][shape], cmdhead("dh", "draw"), *([sw("q", "-q")] if i % 8 >= 4 else []), pt, sw("f", "--fill"))
             fields = [sw("o1", "-v"), inner]
         elif shape == 2:
             rc = adjf("rc", "many", rf("rh", "one", "--rect"), ar("w", "one", "int", "--ww"), ar("h", "one", "int", "--hh"))
